@@ -134,7 +134,7 @@ fn operator_matrix(ctx: &Ctx, cases: &mut Vec<(Case, bool)>) {
                                     None => cases.push(err_case("operator", src, PRELUDE_LINES + lines, vec![], format!("{cell} (zero divisor)"))),
                                 }
                             } else {
-                                let parts = vec![format!("'{}'", op.sym()), format!("'{}'", l.type_name()), format!("'{}'", r.type_name())];
+                                let parts = vec![op.sym().to_string(), l.type_name().to_string(), r.type_name().to_string()];
                                 cases.push(err_case("operator", src, PRELUDE_LINES + lines, parts, cell));
                             }
                         }
@@ -164,7 +164,7 @@ fn nested_eq_matrix(ctx: &Ctx, cases: &mut Vec<(Case, bool)>) {
                         let v = value_of(op, l, a, b);
                         cases.push(ok_case("nested_eq", src, v.map(|v| format!("{v}\n")), cell));
                     } else {
-                        let parts = vec![format!("'{}'", op.sym()), format!("'{}'", l.type_name()), format!("'{}'", r.type_name())];
+                        let parts = vec![op.sym().to_string(), l.type_name().to_string(), r.type_name().to_string()];
                         cases.push(err_case("nested_eq", src, PRELUDE_LINES + 1, parts, cell));
                     }
                 }
@@ -192,7 +192,7 @@ fn op_assign_matrix(ctx: &Ctx, cases: &mut Vec<(Case, bool)>) {
                         let v = value_of(op, l, a, b);
                         cases.push(ok_case("op_assign", src, v.map(|v| format!("{v}\n")), cell));
                     } else {
-                        let parts = vec![format!("'{o}'"), format!("'{}'", l.type_name()), format!("'{}'", r.type_name())];
+                        let parts = vec![o.to_string(), l.type_name().to_string(), r.type_name().to_string()];
                         cases.push(err_case("op_assign", src, PRELUDE_LINES + 3, parts, cell));
                     }
                 }
